@@ -15,6 +15,7 @@ package main
 
 import (
 	"bytes"
+	_ "embed"
 	"fmt"
 	"go/ast"
 	"go/build"
@@ -38,13 +39,25 @@ var wanted = map[string]bool{
 	"WithTTL": true, "TTL": true, "SkipRead": true, "WithSkipRead": true, "withoutSkipRead": true,
 	"detachedContext.Deadline": true, "detachedContext.Done": true, "detachedContext.Err": true, "detachedContext.Value": true,
 	"Invalidator.Invalidate": true,
-	"shardedMap.Read": true, "shardedMap.Write": true, "shardedMap.Delete": true, "shardedMap.deleteExpired": true, "shardedMap.ExpireAll": true,
+	"shardedMap.Read":        true, "shardedMap.Write": true, "shardedMap.Delete": true, "shardedMap.deleteExpired": true, "shardedMap.ExpireAll": true,
 	"shardedMapOf.Read": true, "shardedMapOf.Write": true, "shardedMapOf.Delete": true, "shardedMapOf.deleteExpired": true, "shardedMapOf.ExpireAll": true,
 	"syncMap.Read": true, "syncMap.Write": true, "syncMap.Delete": true, "syncMap.deleteExpired": true, "syncMap.ExpireAll": true,
 	"Failover.ctxSync": true, "FailoverOf.ctxSync": true, "Failover.recentlyFailed": true, "FailoverOf.recentlyFailed": true,
 	"Failover.freshEnough": true, "FailoverOf.freshEnough": true, "Failover.valueFromError": true,
 	"Failover.Get": true, "FailoverOf.Get": true, "Failover.waitForValue": true, "FailoverOf.waitForValue": true,
 	"Failover.doBuild": true, "FailoverOf.doBuild": true, "Failover.refreshStale": true, "FailoverOf.refreshStale": true,
+	"HTTPTransfer.Export": true, "HTTPTransfer.Import": true, "HTTPTransfer.importCache": true, "HTTPTransfer.AddCache": true,
+	"shardedMap.evictLeast": true, "shardedMapOf.evictLeast": true, "syncMap.evictLeast": true,
+	"shardedMap.evictLeastCounter": true, "shardedMap.evictMostExpired": true, "Trait.janitor": true,
+	"Trait.init": true, "NewFailover": true, "NewFailoverOf": true,
+	"GobRegister": true, "GobTypesHash": true, "GobTypesHashReset": true,
+	"ShardedMap.Restore": true, "ShardedMapOf.Restore": true, "SyncMap.Restore": true,
+	"ShardedMap.Dump": true, "ShardedMapOf.Dump": true, "SyncMap.Dump": true,
+	"shardedMap.DeleteAll": true, "shardedMapOf.DeleteAll": true, "syncMap.DeleteAll": true,
+	"shardedMap.Len": true, "shardedMapOf.Len": true, "syncMap.Len": true,
+	"shardedMap.Walk": true, "shardedMapOf.Walk": true, "syncMap.Walk": true,
+	"InvalidationIndex.AddLabels": true, "InvalidationIndex.AddCache": true, "InvalidationIndex.InvalidateByLabels": true,
+	"InvalidationIndex.cutKeys": true, "InvalidationIndex.invalidateByLabels": true,
 	"Trait.NotifyWritten": true, "Trait.NotifyDeleted": true, "Trait.NotifyExpiredAll": true, "Trait.NotifyDeletedAll": true,
 	"TraitOf.NotifyWritten": true,
 }
@@ -55,6 +68,199 @@ type tr struct {
 	pkg    *types.Package
 	locals map[types.Object]string // declared inside the function -> its name in the IR (a shadowing declaration gets a fresh name)
 	used   map[string]int
+	decls  map[types.Object]*ast.FuncDecl // package-level functions and methods by object
+	depth  int
+}
+
+// known.txt lists the functions that existed when the tie lemmas were written. A call to a package-local function that
+// is NOT in this list (a helper introduced by a later refactoring) is inlined when that is plainly semantics-preserving
+// (see inlineable), so that "extract method" does not by itself break a tie; everything else stays a call.
+//
+//go:embed known.txt
+var knownTxt string
+
+var known = func() map[string]bool {
+	m := map[string]bool{}
+	for _, l := range strings.Fields(knownTxt) {
+		m[l] = true
+	}
+
+	return m
+}()
+
+func declName(fd *ast.FuncDecl) string {
+	name := fd.Name.Name
+	if r := recvName(fd); r != "" {
+		name = r + "." + name
+	}
+
+	return name
+}
+
+// callee returns the declaration of the package-local function or method a call refers to, if any.
+func (t *tr) callee(c *ast.CallExpr) (*ast.FuncDecl, ast.Expr) {
+	switch f := c.Fun.(type) {
+	case *ast.Ident:
+		if obj := t.info.Uses[f]; obj != nil {
+			if fd := t.decls[originOf(obj)]; fd != nil {
+				return fd, nil
+			}
+		}
+	case *ast.SelectorExpr:
+		if obj := t.info.Uses[f.Sel]; obj != nil {
+			if fd := t.decls[originOf(obj)]; fd != nil && fd.Recv != nil {
+				return fd, f.X
+			}
+		}
+	}
+
+	return nil, nil
+}
+
+func originOf(obj types.Object) types.Object {
+	if fn, ok := obj.(*types.Func); ok {
+		return fn.Origin()
+	}
+
+	return obj
+}
+
+// inlineable: the callee is a new helper (not in known.txt), every argument is an identifier spelled like the
+// parameter it is passed for and the receiver expression is an identifier spelled like the callee's receiver (so that
+// the callee's body reads the same in the caller), and the body has no loop, defer, go, closure or labelled statement and
+// no return except possibly as its last statement.
+func (t *tr) inlineable(c *ast.CallExpr) (*ast.FuncDecl, bool) {
+	fd, recv := t.callee(c)
+	if fd == nil || fd.Body == nil || known[declName(fd)] || t.depth > 3 || c.Ellipsis != token.NoPos {
+		return nil, false
+	}
+
+	same := func(e ast.Expr, name string) bool {
+		id, ok := e.(*ast.Ident)
+
+		return ok && id.Name == name
+	}
+
+	if fd.Recv != nil {
+		if len(fd.Recv.List) != 1 || len(fd.Recv.List[0].Names) != 1 || recv == nil || !same(recv, fd.Recv.List[0].Names[0].Name) {
+			return nil, false
+		}
+	}
+
+	var params []string
+
+	for _, f := range fd.Type.Params.List {
+		for _, n := range f.Names {
+			params = append(params, n.Name)
+		}
+	}
+
+	if len(params) != len(c.Args) {
+		return nil, false
+	}
+
+	for i, a := range c.Args {
+		if !same(a, params[i]) {
+			return nil, false
+		}
+	}
+
+	ok := true
+	n := len(fd.Body.List)
+
+	ast.Inspect(fd.Body, func(x ast.Node) bool {
+		switch s := x.(type) {
+		case *ast.ForStmt, *ast.RangeStmt, *ast.DeferStmt, *ast.GoStmt, *ast.FuncLit, *ast.LabeledStmt, *ast.SelectStmt:
+			ok = false
+		case *ast.ReturnStmt:
+			if n == 0 || s != fd.Body.List[n-1] {
+				ok = false
+			}
+		}
+
+		return ok
+	})
+
+	return fd, ok
+}
+
+// bindParams makes the callee's receiver and parameters denote the caller's identifiers of the same name.
+func (t *tr) bindParams(fd *ast.FuncDecl, c *ast.CallExpr, recv ast.Expr) {
+	bind := func(n *ast.Ident, arg ast.Expr) {
+		obj := t.info.Defs[n]
+		if obj == nil {
+			return
+		}
+
+		if id, ok := arg.(*ast.Ident); ok {
+			if ao := t.info.ObjectOf(id); ao != nil {
+				if nm, ok := t.locals[ao]; ok {
+					t.locals[obj] = nm
+
+					return
+				}
+			}
+		}
+
+		t.locals[obj] = n.Name
+	}
+
+	if fd.Recv != nil && recv != nil {
+		bind(fd.Recv.List[0].Names[0], recv)
+	}
+
+	i := 0
+
+	for _, f := range fd.Type.Params.List {
+		for _, n := range f.Names {
+			bind(n, c.Args[i])
+			i++
+		}
+	}
+}
+
+// inlineCall: the callee's statements but its trailing return, and the expressions that return yields.
+func (t *tr) inlineCall(fd *ast.FuncDecl, c *ast.CallExpr) ([]string, []ast.Expr) {
+	_, recv := t.callee(c)
+	t.bindParams(fd, c, recv)
+	t.depth++
+
+	defer func() { t.depth-- }()
+
+	body := fd.Body.List
+
+	var results []ast.Expr
+
+	if n := len(body); n > 0 {
+		if r, ok := body[n-1].(*ast.ReturnStmt); ok {
+			results = r.Results
+			body = body[:n-1]
+		}
+	}
+
+	var stmts []string
+
+	if fd.Type.Results != nil { // named results start as zero values
+		for _, fld := range fd.Type.Results.List {
+			var names []string
+
+			for _, n := range fld.Names {
+				if obj := t.info.Defs[n]; obj != nil {
+					names = append(names, q(t.declare(obj)))
+				}
+			}
+
+			if len(names) > 0 {
+				stmts = append(stmts, fmt.Sprintf("(GVar %s %s)", list(names), q(t.src(fld.Type))))
+			}
+		}
+	}
+
+	for _, s := range body {
+		stmts = append(stmts, t.stmt(s))
+	}
+
+	return stmts, results
 }
 
 // declare registers a local; the first object of a name keeps it, later ones (shadowing: `if err := ...`) get name'N.
@@ -176,13 +382,33 @@ func (t *tr) expr(e ast.Expr) string {
 		}
 
 		return "(GLeaf " + q(x.Name) + ")"
-	case *ast.SelectorExpr, *ast.StarExpr, *ast.IndexExpr:
+	case *ast.SelectorExpr:
+		// a selector on something that is not a plain path (a composite literal, a call): keep the operand
+		if !isPath(x.X) {
+			return fmt.Sprintf("(GSel %s %s)", t.expr(x.X), q(x.Sel.Name))
+		}
+
+		return "(GLeaf " + q(t.src(e)) + ")"
+	case *ast.StarExpr, *ast.IndexExpr:
 		return "(GLeaf " + q(t.src(e)) + ")"
 	case *ast.UnaryExpr:
 		return fmt.Sprintf("(GUn %s %s)", q(x.Op.String()), t.expr(x.X))
 	case *ast.BinaryExpr:
 		return fmt.Sprintf("(GBin %s %s %s)", q(x.Op.String()), t.expr(x.X), t.expr(x.Y))
 	case *ast.CallExpr:
+		if fd, ok := t.inlineable(x); ok && len(fd.Body.List) == 1 && fd.Type.Results != nil && len(fd.Type.Results.List) == 1 &&
+			len(fd.Type.Results.List[0].Names) == 0 {
+			if r, isRet := fd.Body.List[0].(*ast.ReturnStmt); isRet && len(r.Results) == 1 {
+				_, recv := t.callee(x)
+				t.bindParams(fd, x, recv)
+				t.depth++
+
+				defer func() { t.depth-- }()
+
+				return t.expr(r.Results[0])
+			}
+		}
+
 		args := make([]string, len(x.Args))
 		for i, a := range x.Args {
 			args[i] = t.expr(a)
@@ -225,6 +451,24 @@ func (t *tr) expr(e ast.Expr) string {
 	return "(GOther " + q(t.src(e)) + ")"
 }
 
+// isPath: identifiers, selectors, dereferences and index expressions over them (a.b.c, *p, m[k].f)
+func isPath(e ast.Expr) bool {
+	switch x := e.(type) {
+	case *ast.Ident:
+		return true
+	case *ast.SelectorExpr:
+		return isPath(x.X)
+	case *ast.StarExpr:
+		return isPath(x.X)
+	case *ast.IndexExpr:
+		return isPath(x.X)
+	case *ast.ParenExpr:
+		return isPath(x.X)
+	}
+
+	return false
+}
+
 func (t *tr) exprs(es []ast.Expr) string {
 	out := make([]string, len(es))
 	for i, e := range es {
@@ -256,9 +500,34 @@ func (t *tr) define(lhs []ast.Expr) {
 func (t *tr) stmt(s ast.Stmt) string {
 	switch x := s.(type) {
 	case *ast.ExprStmt:
+		if c, isCall := x.X.(*ast.CallExpr); isCall {
+			if fd, ok := t.inlineable(c); ok && (fd.Type.Results == nil || len(fd.Type.Results.List) == 0) {
+				stmts, _ := t.inlineCall(fd, c)
+
+				return "(GBlock " + list(stmts) + ")"
+			}
+		}
+
 		return "(GExprS " + t.expr(x.X) + ")"
 	case *ast.AssignStmt:
 		if x.Tok == token.ASSIGN || x.Tok == token.DEFINE {
+			if len(x.Rhs) == 1 {
+				if c, isCall := x.Rhs[0].(*ast.CallExpr); isCall {
+					if fd, ok := t.inlineable(c); ok && len(fd.Body.List) > 1 {
+						stmts, results := t.inlineCall(fd, c)
+						if len(results) == len(x.Lhs) {
+							rhs := t.exprs(results)
+
+							if x.Tok == token.DEFINE {
+								t.define(x.Lhs)
+							}
+
+							return "(GBlock " + list(append(stmts, fmt.Sprintf("(GAssign %s %s)", t.exprs(x.Lhs), rhs))) + ")"
+						}
+					}
+				}
+			}
+
 			rhs := t.exprs(x.Rhs) // before the left-hand side is declared: `err := f(err)` reads the outer err
 
 			if x.Tok == token.DEFINE {
@@ -352,6 +621,17 @@ func (t *tr) stmt(s ast.Stmt) string {
 			return fmt.Sprintf("(GSwitch %s %s)", tag, list(cs))
 		}
 	case *ast.ReturnStmt:
+		if len(x.Results) == 1 {
+			if c, isCall := x.Results[0].(*ast.CallExpr); isCall {
+				if fd, ok := t.inlineable(c); ok && len(fd.Body.List) > 1 {
+					stmts, results := t.inlineCall(fd, c)
+					if len(results) > 0 {
+						return "(GBlock " + list(append(stmts, "(GReturn "+t.exprs(results)+")")) + ")"
+					}
+				}
+			}
+		}
+
 		return "(GReturn " + t.exprs(x.Results) + ")"
 	case *ast.BlockStmt:
 		return "(GBlock " + t.block(x.List) + ")"
@@ -371,13 +651,21 @@ func (t *tr) stmt(s ast.Stmt) string {
 
 		return fmt.Sprintf("(GRange %s %s %s %s)", q(k), q(v), t.expr(x.X), t.block(x.Body.List))
 	case *ast.ForStmt:
+		c := "(GBool true)"
+
 		if x.Init == nil && x.Post == nil {
-			c := "(GBool true)"
 			if x.Cond != nil {
 				c = t.expr(x.Cond)
 			}
 
 			return fmt.Sprintf("(GWhile %s %s)", c, t.block(x.Body.List))
+		}
+
+		if x.Init != nil && x.Post != nil && x.Cond != nil {
+			init := t.stmt(x.Init)
+			c = t.expr(x.Cond)
+
+			return fmt.Sprintf("(GFor %s %s %s %s)", init, c, t.stmt(x.Post), t.block(x.Body.List))
 		}
 	case *ast.DeferStmt:
 		return "(GDefer " + t.expr(x.Call) + ")"
@@ -385,6 +673,10 @@ func (t *tr) stmt(s ast.Stmt) string {
 		return "(GGo " + t.expr(x.Call) + ")"
 	case *ast.EmptyStmt:
 		return "(GBlock [])"
+	case *ast.BranchStmt:
+		if x.Label == nil && (x.Tok == token.BREAK || x.Tok == token.CONTINUE) {
+			return "(GBranch " + q(x.Tok.String()) + ")"
+		}
 	}
 
 	return "(GOtherS " + q(t.src(s)) + ")"
@@ -473,6 +765,31 @@ func main() {
 		os.Exit(1)
 	}
 
+	decls := map[types.Object]*ast.FuncDecl{}
+
+	for _, f := range files {
+		for _, d := range f.Decls {
+			if fd, ok := d.(*ast.FuncDecl); ok {
+				if obj := info.Defs[fd.Name]; obj != nil {
+					decls[obj] = fd
+				}
+			}
+		}
+	}
+
+	if len(os.Args) > 3 && os.Args[3] == "-list" { // print the names of all functions (to refresh known.txt)
+		var names []string
+
+		for _, fd := range decls {
+			names = append(names, declName(fd))
+		}
+
+		sort.Strings(names)
+		fmt.Println(strings.Join(names, "\n"))
+
+		return
+	}
+
 	type fn struct{ name, def string }
 
 	var fns []fn
@@ -496,7 +813,7 @@ func main() {
 			}
 
 			seen[name] = true
-			t := &tr{fset: fset, info: info, pkg: pkg, locals: map[types.Object]string{}, used: map[string]int{}}
+			t := &tr{fset: fset, info: info, pkg: pkg, locals: map[types.Object]string{}, used: map[string]int{}, decls: decls}
 
 			var params []string
 
